@@ -637,4 +637,116 @@ theorem run_Inv (cfg : Cfg) (s : State) (es : List Event) (h : Inv cfg s) : Inv 
   | nil => exact h
   | cons e es ih => exact ih _ (stepEvent_Inv cfg s e h)
 
+/-! ## routing -/
+
+theorem pathOnly_append_query (p q : List Nat) (hp : ∀ b ∈ p, b ≠ 63) : pathOnly (p ++ 63 :: q) = p := by
+  unfold pathOnly
+  induction p with
+  | nil => simp [List.takeWhile]
+  | cons b tl ih =>
+    have hb : b ≠ 63 := hp b List.mem_cons_self
+    have htl : ∀ x ∈ tl, x ≠ 63 := fun x hx => hp x (List.mem_cons_of_mem _ hx)
+    simp only [List.cons_append, List.takeWhile_cons]
+    simp only [ne_eq, hb, not_false_eq_true, decide_true, ↓reduceIte]
+    rw [ih htl]
+
+theorem pathOnly_of_no_query (p : List Nat) (hp : ∀ b ∈ p, b ≠ 63) : pathOnly p = p := by
+  unfold pathOnly
+  induction p with
+  | nil => rfl
+  | cons b tl ih =>
+    have hb : b ≠ 63 := hp b List.mem_cons_self
+    have htl : ∀ x ∈ tl, x ≠ 63 := fun x hx => hp x (List.mem_cons_of_mem _ hx)
+    simp only [List.takeWhile_cons, ne_eq, hb, not_false_eq_true, decide_true, ↓reduceIte]
+    rw [ih htl]
+
+/-- what `routePath` answers is decided by the path alone -/
+theorem routePath_eq_of_pathOnly (t₁ t₂ : List Nat) (h : pathOnly t₁ = pathOnly t₂) :
+    routePath t₁ = routePath t₂ := by
+  unfold routePath
+  rw [h]
+
+theorem routePath_db (t : List Nat) (n : String) (h : routePath t = .db n) :
+    ∃ seg, pathOnly t = 47 :: seg ∧ seg ≠ [] ∧ seg.contains 47 = false ∧
+      utf8Decode (percentDecode seg) = some n := by
+  unfold routePath at h
+  split at h
+  · rename_i rest heq
+    split at h
+    · cases h
+    · rename_i hne
+      split at h
+      · cases h
+      · rename_i hc
+        split at h
+        · rename_i name hd
+          cases h
+          refine ⟨rest, heq, ?_, by simpa using hc, hd⟩
+          intro e
+          apply hne
+          simp [e]
+        · cases h
+  · cases h
+
+theorem routePath_root (t : List Nat) : routePath t = .root ↔ pathOnly t = [47] := by
+  unfold routePath
+  constructor
+  · intro h
+    split at h
+    · rename_i rest heq
+      split at h
+      · rename_i he
+        rw [heq]
+        have : rest = [] := by simpa using he
+        rw [this]
+      · split at h
+        · cases h
+        · split at h <;> cases h
+    · cases h
+  · intro h
+    rw [h]
+    simp
+
+/-! ## storage addressing -/
+
+theorem touchedDb_dispatchDb (cfg : Cfg) (s : State) (n n' : String) (p : Principal) (v : String)
+    (e : Gen.ServerMethods.Effect) (ps : RootParams) (enc : Enc) (pr : Option Principal)
+    (h : touchedDb ⟨enc, (dispatchDb cfg s n p v e ps).2, pr⟩ = some n') :
+    n' = n ∧ s.opened.contains n = true := by
+  unfold dispatchDb at h
+  split at h
+  · cases h
+  · rename_i ho
+    split at h
+    · cases h
+    · split at h
+      · cases h
+      · simp only [touchedDb] at h
+        cases h
+        exact ⟨rfl, by simpa using ho⟩
+
+theorem touchedDb_rpc_root (cfg : Cfg) (s : State) (r : Request) : touchedDb (rpc cfg s .root r).2 = none := by
+  cases ha : authorizeState cfg s .root (bearerToken r.auth) with
+  | error e => rw [rpc_rejected cfg s _ r e ha]; rfl
+  | ok p =>
+    unfold rpc
+    simp only [ha]
+    repeat' split
+    all_goals rfl
+
+theorem touchedDb_rpc_database (cfg : Cfg) (s : State) (n n' : String) (r : Request)
+    (h : touchedDb (rpc cfg s (.database n) r).2 = some n') : n' = n ∧ s.opened.contains n = true := by
+  cases ha : authorizeState cfg s (.database n) (bearerToken r.auth) with
+  | error e => rw [rpc_rejected cfg s _ r e ha] at h; cases h
+  | ok p =>
+    unfold rpc at h
+    simp only [ha] at h
+    split at h
+    · cases h
+    · split at h
+      · cases h
+      · split at h
+        · cases h
+        · exact touchedDb_dispatchDb _ _ _ _ _ _ _ _ _ _ h
+
 end AndaVerif.ServerAuth
